@@ -1399,6 +1399,12 @@ func (s *Store) getIDForURI(txn *badger.Txn, uri string) (uint64, bool, error) {
 }
 
 func (s *Store) commitIDTxn() error {
+	if s.parent != nil {
+		// a contextual store shares the rolling id transaction of the store it was derived
+		// from: that is the one the datasets assert identifiers on, so it must be committed
+		// before the data that refers to those identifiers
+		return s.parent.commitIDTxn()
+	}
 	s.idmux.Lock()
 	defer s.idmux.Unlock()
 
@@ -1443,6 +1449,9 @@ func (s *Store) getURIForID(rid uint64) (string, error) {
 }
 
 func (s *Store) assertIDForURI(uri string, localTxnCache map[string]uint64) (uint64, bool, error) {
+	if s.parent != nil {
+		return s.parent.assertIDForURI(uri, localTxnCache)
+	}
 	var rid uint64
 	var exists bool
 	isnew := false
